@@ -9,6 +9,7 @@ import Fbr.Lemmas.OvlInv
 import Fbr.Lemmas.OvlNoUpper
 import Fbr.Lemmas.OvlSimLookup
 import Fbr.Lemmas.OvlSimRO
+import Fbr.Lemmas.OvlOps
 
 namespace Fbr.Thm.C10
 open Fbr.Ovl
@@ -200,7 +201,8 @@ theorem no_upper_modifying_fails (d : Disk) (hd : d.upper = none) (ops : List Op
   `liveView s p` is what a client gets by walking the (root-first) path `p` through the overlay
   in state `s` (LOOKUP per component, then the node's attributes / content / target / xattr from
   the real inode the overlay would use); `merge d q` is the SPEC at the leaf-first path `q`.
-  `Disk.RootsOK` (every layer root is a directory) is the only assumption on the layers. -/
+  `Disk.RootsOK` (every layer root is a directory) and `Disk.TreesOK` (every layer is a tree:
+  whatever exists lies in a directory) are the only assumptions on the layers. -/
 
 /-- Whenever the in-memory forest is a valid cache of the disk (`Consistent`: every node keeps
     exactly the real inodes `scan_childrens`/`new_from_real_inodes` would compute from the disk
@@ -213,35 +215,52 @@ theorem view_is_merge_of_consistent (s : St) (hc : Consistent s) (p : List Name)
 /-- A freshly imported overlay shows exactly the overlayfs union of its layers — for every
     layer contents (any number of lowers, with or without upper, whiteouts, opaque directories,
     same names as files and directories in several layers) and every path of any depth. -/
-theorem fresh_view_is_merge (d : Disk) (hr : d.RootsOK) (p : List Name) :
+theorem fresh_view_is_merge (d : Disk) (hr : d.RootsOK) (ht : d.TreesOK) (p : List Name) :
     liveView (importFs d) p = merge d p.reverse := by
-  have h := import_consistent d hr
+  have h := import_consistent d hr ht
   rw [consistent_view_is_merge _ h.1, h.2]
 
-/-- `view_is_merge`, PARTIAL: after any history of NON-MODIFYING operations (lookup, readdir,
-    read, readlink, getxattr, open read-only, walk — these load directories lazily and so do
-    change the in-memory forest) the live view is still the union of the layers.
+/-- `view_is_merge`, PARTIAL: after any history made of the operations in `Op.covered` — every
+    non-modifying operation (lookup, readdir, read, readlink, getxattr, open read-only, walk; they
+    load directories lazily) and the six modifying operations that copy a node up and change
+    attributes (open for writing incl. O_TRUNC, write, chmod, truncate, setxattr, removexattr,
+    with copy-up of files, symlinks, special files and of any chain of missing parent
+    directories) — from ANY initial disk, the live view at every path is the overlayfs union of
+    what is on disk then.  Failed operations are included (they may leave copied-up parents).
 
-    What is missing for the full statement: preservation of `Consistent` by the twelve modifying
-    operations is not proved in Lean.  For those the tie is the correspondence run alone (the
-    harness compares the tree walked through the real `OverlayFs`, live and after a restart,
-    with `merge` of the model's disk after every operation) together with
-    `view_is_merge_of_consistent`. -/
-theorem view_is_merge_partial (d : Disk) (hr : d.RootsOK) (ops : List Op)
-    (hops : ∀ op ∈ ops, op.isModifying = false) (p : List Name) :
-    liveView (run (importFs d) ops) p = merge d p.reverse := by
-  have h0 := import_consistent d hr
-  have h := run_ro_cd d ops hops _ ⟨h0.1, h0.2⟩
-  rw [consistent_view_is_merge _ h.1, h.2]
+    What is missing for the full statement: preservation of the cache invariant `Consistent` by
+    create, mkdir, mknod, symlink, link, unlink and rmdir is not proved in Lean.  For those the
+    tie is the correspondence run alone (live tree and restarted tree vs `merge` of the model's
+    disk after every operation) together with `view_is_merge_of_consistent`. -/
+theorem view_is_merge_partial (d : Disk) (hr : d.RootsOK) (ht : d.TreesOK) (ops : List Op)
+    (hops : ∀ op ∈ ops, op.covered = true) (p : List Name) :
+    liveView (run (importFs d) ops) p = merge (run (importFs d) ops).disk p.reverse := by
+  have h0 := import_consistent d hr ht
+  exact consistent_view_is_merge _ (run_cons ops hops _ h0.1) p
+
+/-- the covered operations keep the cache invariant, one at a time, from any consistent state -/
+theorem covered_op_keeps_cache (s : St) (hc : Consistent s) (op : Op) (hop : op.covered = true) :
+    Consistent (runOp op s).st :=
+  (runOp_cons op hop).st hc
 
 /-- `op_refines_plain_fs`, PARTIAL (non-modifying operations): they leave the union unchanged,
     as they leave an ordinary file system unchanged. -/
-theorem op_refines_plain_fs_partial (d : Disk) (hr : d.RootsOK) (ops : List Op)
+theorem op_refines_plain_fs_partial (d : Disk) (hr : d.RootsOK) (ht : d.TreesOK) (ops : List Op)
     (hops : ∀ op ∈ ops, op.isModifying = false) (op : Op) (hop : op.isModifying = false) :
     merge (runOp op (run (importFs d) ops)).st.disk = merge d := by
-  have h0 := import_consistent d hr
+  have h0 := import_consistent d hr ht
   have h := run_ro_cd d ops hops _ ⟨h0.1, h0.2⟩
   have h' := (runOp_ro_cd d op hop).st h
   rw [h'.2]
+
+/-! non-vacuity of the hypotheses: the example disk is well-formed -/
+example : exDisk.RootsOK := by
+  intro i hi
+  have : i = 0 ∨ i = 1 ∨ i = 2 := by
+    have : i = 0 ∨ ∃ a, a < 2 ∧ a + 1 = i := by simpa [exDisk, Disk.indices] using hi
+    rcases this with h | ⟨a, ha, rfl⟩
+    · exact Or.inl h
+    · omega
+  rcases this with rfl | rfl | rfl <;> decide
 
 end Fbr.Thm.C10
